@@ -23,14 +23,15 @@ Reference semantics (C05): `Text.view t : List (Char × List σ)` — every char
 apply to it, base style first, then the covering spans in span order ("later spans win" is the order of that
 list).  `nsv v` is the sub-list of the non-whitespace characters (Python's `str.isspace` class, generated).
 
-Variants.  `WVariant.fixed chars` = the code in /repo: rich 9.10.0 with the two repairs this machinery asked for
+Variants.  `WVariant.fixed chars` = rich 9.10.0 with the two repairs this property's machinery asked for
 (`fix:` commits aad03fe "Text.divide keeps the order of equal spans" — found by C05, reproduced through `wrap` here —
 and 90b2e96 "Lines.justify does not pad by a negative amount" — found by C02), with `Text.rstrip_end` in either form:
-`chars = true` compares the *character* count of a line with the cell width (today), `chars = false` the cell length
-(pending_fixes/C08-rstrip-end-counts-cells.diff).  **Every theorem below that mentions `chars` holds for both values**
+`chars = true` compares the *character* count of a line with the cell width (rich 9.10.0 as found, before fix f5f2be9),
+`chars = false` the cell length (fix f5f2be9 "Text.rstrip_end compares cell widths", found by C08).  The code in /repo
+now is `WVariant.fixed false` = `WVariant.repaired`.  **Every theorem below that mentions `chars` holds for both values**
 (`rstrip_end` removes nothing but trailing whitespace either way); what the C08 repair adds is stated separately
-(`fold_lines_fit_before_crop`, repaired form only) with the witness `old_wrap_ellipsis_drops_fitting_char` for today's
-form.  `WVariant.repaired = WVariant.fixed false`; `WVariant.released` = rich 9.10.0 as released.  The `old_…` theorems
+(`fold_lines_fit_before_crop`, repaired form only) with the witness `old_wrap_ellipsis_drops_fitting_char` for the
+as-found form.  `WVariant.repaired = WVariant.fixed false`; `WVariant.released` = rich 9.10.0 as released.  The `old_…` theorems
 exhibit, by evaluation, a concrete input on which the older code violates the statement proved for the repaired code;
 the harness passes the flags that match the code it runs against, so a regression of any repair shows up as a
 correspondence mismatch and a direct-evaluation failure.
@@ -413,7 +414,7 @@ example : ∀ c, pyIsSpace c = true → 1 ≤ exCw c := by
     · rename_i hc; subst hc; exact absurd h (by decide)
     · omega
 
-/-- today's `rstrip_end` compares characters with cells: `"ああ b"` at width 4 leaves the first line as `"ああ "`
+/-- the `rstrip_end` of rich 9.10.0 as found (before fix f5f2be9) compares characters with cells: `"ああ b"` at width 4 leaves the first line as `"ああ "`
 (3 characters ≤ 4, but 5 cells), so with overflow "ellipsis" the final crop turns it into `"あ …"` and a character
 that fits is lost; the repaired form strips the blank and keeps `"ああ"`. -/
 theorem old_wrap_ellipsis_drops_fitting_char :
